@@ -3,6 +3,9 @@ import GeoVerif.Model.UTMUPS
 import GeoVerif.Model.MGRS
 import GeoVerif.Model.GridCodes
 import GeoVerif.Proofs.ErrContract
+import GeoVerif.Model.ErrCover
+import GeoVerif.Proofs.ErrCover
+import GeoVerif.Gen.ApiC13
 /-!
 # C13 — error contract: NaN propagates, bad input throws cleanly, nothing crashes
 
@@ -11,30 +14,48 @@ C04 / C05 / C18).  What cannot be a theorem — absence of undefined behaviour, 
 only by the sanitizer-instrumented correspondence run and is labelled partial in the manifest.
 -/
 namespace GeoVerif.Props.C13
-open GeoVerif GeoVerif.ErrContract GeoVerif.Proofs.ErrContract
+open GeoVerif GeoVerif.ErrContract GeoVerif.Proofs.ErrContract GeoVerif.ErrCover GeoVerif.ApiInventory
 
 /-! ## 1. the decision procedures of the sweep are sound for the contract -/
 
-/-- The dependence table (229 entry points) is well formed: every row has one character per output, drawn from
-`0 1 x`, and the inputs listed as "NaN is rejected" exist. -/
+/-- The dependence table (394 entry points) is well formed: every row has one character per output, drawn from
+`0 1 = x`, and the inputs listed as "NaN is rejected" exist. -/
 theorem table_wellformed : table.all wellFormed = true := by decide +kernel
 
-/-- no entry point is listed twice (the driver's lookup is unambiguous) -/
-theorem table_names_distinct : (table.map (·.name)).Nodup := by decide +kernel
+/-- the numeric code of every table key is the code of its name (so that look-ups by code are look-ups by name) -/
+theorem table_keys_ok : (table.all fun e => e.key.ok) = true := by decide +kernel
 
-theorem okOut_nan {isnan : Bool} (h : okOut .nan isnan = true) : isnan = true := by simpa [okOut] using h
-theorem okOut_valid {isnan : Bool} (h : okOut .valid isnan = true) : isnan = false := by simpa [okOut] using h
+/-- no entry point is listed twice (the driver's lookup is unambiguous): the codes are pairwise distinct … -/
+theorem table_codes_distinct : (table.map (·.key.code)).Nodup := by decide +kernel
+/-- … hence so are the names -/
+theorem table_names_distinct : (table.map (·.name)).Nodup := by
+  have hk : ∀ e ∈ table, e.key.code = strCode e.name := by
+    intro e he
+    have := List.all_eq_true.mp table_keys_ok e he
+    simpa [Key.ok, Entry.name] using this
+  have hmap : table.map (·.key.code) = (table.map (·.name)).map strCode := by
+    rw [List.map_map]
+    exact List.map_congr_left fun e he => hk e he
+  have hn := table_codes_distinct
+  rw [hmap] at hn
+  exact List.Pairwise.of_map strCode (fun a b h hab => h (by rw [hab])) hn
+
+theorem okOut_nan {isnan same : Bool} (h : okOut .nan isnan same = true) : isnan = true := by simpa [okOut] using h
+theorem okOut_valid {isnan same : Bool} (h : okOut .valid isnan same = true) : isnan = false := by simpa [okOut] using h
+theorem okOut_same {isnan same : Bool} (h : okOut .same isnan same = true) : isnan = false ∧ same = true := by simpa [okOut] using h
 
 /--
 `nan_contract_sound`: if the driver accepts the report of a call whose argument `i` was NaN, then
 * no exception was raised — unless `i` is one of the arguments whose NaN is documented to be rejected, in which case
   the only alternative is the library's exception with no output written — and
-* when it returned, every output marked dependent on `i` is NaN and every output marked independent is a valid number.
+* when it returned, every output marked dependent on `i` is NaN, every output marked `0` is a valid number, and every output
+  marked `=` (does not depend on `i` at all) is a valid number **bit-identical to the output of the NaN-free baseline call**.
 -/
 theorem nan_contract_sound (e : Entry) (i : Nat) (r : Report) (h : e.checkNaN i r = true) :
     (r.exc = .none ∨ (i ∈ e.nanErr ∧ r.exc = .lib ∧ ∀ w ∈ r.written, w = false)) ∧
     (r.exc = .none → ∀ o, o < e.nout →
-      (e.req i o = .nan → r.isnan.getD o false = true) ∧ (e.req i o = .valid → r.isnan.getD o false = false)) := by
+      (e.req i o = .nan → r.isnan.getD o false = true) ∧ (e.req i o = .valid → r.isnan.getD o false = false) ∧
+      (e.req i o = .same → r.isnan.getD o false = false ∧ r.same.getD o false = true)) := by
   unfold Entry.checkNaN at h
   split at h
   · rename_i hc
@@ -43,21 +64,39 @@ theorem nan_contract_sound (e : Entry) (i : Nat) (r : Report) (h : e.checkNaN i 
     rcases h with ⟨hx, hw⟩ | ⟨hx, ho⟩
     · refine ⟨Or.inr ⟨hi, hx, fun w hw' => by simpa using hw w hw'⟩, fun hn => ?_⟩
       rw [hx] at hn; cases hn
-    · refine ⟨Or.inl hx, fun _ o ho' => ⟨fun hq => ?_, fun hq => ?_⟩⟩
+    · refine ⟨Or.inl hx, fun _ o ho' => ⟨fun hq => ?_, fun hq => ?_, fun hq => ?_⟩⟩
       · have := ho o ho'; rw [hq] at this; exact okOut_nan this
       · have := ho o ho'; rw [hq] at this; exact okOut_valid this
+      · have := ho o ho'; rw [hq] at this; exact okOut_same this
   · simp only [Bool.and_eq_true, beq_iff_eq, List.all_eq_true, List.mem_range] at h
     obtain ⟨⟨hx, _⟩, ho⟩ := h
-    refine ⟨Or.inl hx, fun _ o ho' => ⟨fun hq => ?_, fun hq => ?_⟩⟩
+    refine ⟨Or.inl hx, fun _ o ho' => ⟨fun hq => ?_, fun hq => ?_, fun hq => ?_⟩⟩
     · have := ho o ho'; rw [hq] at this; exact okOut_nan this
     · have := ho o ho'; rw [hq] at this; exact okOut_valid this
+    · have := ho o ho'; rw [hq] at this; exact okOut_same this
 
-/-- non-vacuity: `Geodesic::Direct` with NaN `lon1`: only `lon2` (output 1) is NaN, nothing thrown, is accepted;
-the F11 shape (a dependent output coming back finite) is rejected -/
-example : (find "GeodS.Direct").map (fun e => e.checkNaN 1 ⟨.none, List.replicate 8 true,
-    [false, true, false, false, false, false, false, false]⟩) = some true := by decide +kernel
-example : (find "LCC.Reverse").map (fun e => e.checkNaN 2 ⟨.none, List.replicate 4 true,
-    [false, true, false, false]⟩) = some false := by decide +kernel
+/-- a report of a call that returned normally and wrote all its `n` outputs -/
+def okReport (n : Nat) (isnan same : List Bool) : Report := { exc := .none, written := List.replicate n true, isnan := isnan, same := same }
+
+/-- non-vacuity: `Geodesic::Direct` with NaN `lon1`: only `lon2` (output 1) is NaN, every other output equals the baseline's,
+nothing thrown: accepted; the same report with `azi2` (output 2) differing from the baseline is rejected (the row is `=1======`);
+the F11 shape (a dependent output coming back finite) is rejected; the seeded change C13F (`GeoCoords(zone, northp, NaN, y)` returning
+another northing, output 3) is rejected -/
+example : (findKey (k% "GeodS.Direct")).map (fun e => e.checkNaN 1 (okReport 8 [false, true, false, false, false, false, false, false]
+    [true, false, true, true, true, true, true, true])) = some true := by
+  decide +kernel
+example : (findKey (k% "GeodS.Direct")).map (fun e => e.checkNaN 1 (okReport 8 [false, true, false, false, false, false, false, false]
+    [true, false, false, true, true, true, true, true])) = some false := by
+  decide +kernel
+example : (findKey (k% "LCC.Reverse")).map (fun e => e.checkNaN 2 (okReport 4 [false, true, false, false]
+    [false, false, false, false])) = some false := by decide +kernel
+example : (findKey (k% "GeoCoords.CtorUTMN")).map (fun e => e.checkNaN 0 (okReport 17 [true, true, true, false, true, true, false, false, true, false, false, true, true, false, true, true, false]
+    [false, false, false, false, false, false, false, true, false, false, true, false, false, true, false, false, false])) = some false := by
+  decide +kernel
+/-- … and the report of the unchanged library (northing, hemisphere, zone and their alternates echo the arguments) is accepted -/
+example : (findKey (k% "GeoCoords.CtorUTMN")).map (fun e => e.checkNaN 0 (okReport 17 [true, true, true, false, true, true, false, false, true, false, false, true, true, false, true, true, false]
+    [false, false, false, true, false, false, true, true, false, true, true, false, false, true, false, false, true])) = some true := by
+  decide +kernel
 
 /--
 `throw_clean_sound`: a report accepted by `throwClean` is either a normal return, or the library's exception / an
@@ -250,6 +289,42 @@ theorem ctor_domain_tmexact_sub (a f k : F64) (h : tmExactOK a f k = true) (hf :
   simp only [tmExactOK, Bool.and_eq_true] at h
   simp [afkOK, afOK, h.1.1.1, h.1.2, h.2, hf]
 
+/-- **non-finite ellipsoid parameters are rejected**: an infinite or NaN equatorial radius or flattening is refused by every one of the
+ellipsoid / projection validators (Geodesic, GeodesicExact, Rhumb, Ellipsoid, AuxLatitude, DAuxLatitude: `abOK`; Geocentric: `afOK`;
+TransverseMercator, PolarStereographic, the conics: `afkOK`; TransverseMercatorExact: `tmExactOK`), whatever the other parameters -/
+theorem ctor_nonfinite_rejected (a f : F64) (h : a.isFinite = false ∨ f.isFinite = false) :
+    abOK a f = false ∧ afOK a f = false ∧ (∀ k, afkOK a f k = false ∧ tmExactOK a f k = false) := by
+  have hab : abOK a f = false := by
+    rcases h with h | h
+    · simp [abOK, pos, h]
+    · have : (one - f).isFinite = false := by
+        cases f with
+        | nan => rfl
+        | inf s => rw [sub_one_inf]; rfl
+        | fin s m e => simp [F64.isFinite] at h
+      simp [abOK, pos, mul_nonfinite a _ this]
+  have haf : afOK a f = false := by
+    rcases h with h | h
+    · simp [afOK, pos, h]
+    · simp [afOK, h]
+  refine ⟨hab, haf, fun k => ⟨by simp [afkOK, haf], ?_⟩⟩
+  rcases h with h | h
+  · simp [tmExactOK, pos, h]
+  · cases f with
+    | nan => simp [tmExactOK, F64.gt, F64.lt]
+    | inf s =>
+      have h1 : F64.lt (.inf false) one = false := by decide +kernel
+      have h2 : F64.gt (.inf true) 0 = false := by decide +kernel
+      cases s <;> simp [tmExactOK, h1, h2]
+    | fin s m e => simp [F64.isFinite] at h
+/-- non-vacuity: the WGS84 parameters are accepted by all four, `f = 1` and `f = 2` are rejected by all four, `f = 0` and a prolate
+`f = -1/150` are rejected by the exact transverse Mercator only -/
+example : let a := F64.ofInt 6378137; let f := F64.ofDecimal 335 5; let k := F64.ofDecimal 9996 4
+    (abOK a f && afOK a f && afkOK a f k && tmExactOK a f k) = true ∧
+    (abOK a 1 || afOK a 1 || afkOK a 1 k || tmExactOK a 1 k) = false ∧ (abOK a 2 || afOK a 2 || afkOK a 2 k || tmExactOK a 2 k) = false ∧
+    (abOK a 0 && afOK a 0 && afkOK a 0 k) = true ∧ tmExactOK a 0 k = false ∧ tmExactOK a (F64.neg (F64.div 1 (F64.ofInt 150))) k = false := by
+  decide +kernel
+
 /-- the one-parallel and two-parallel constructors of LambertConformalConic / AlbersEqualArea agree when the two
 parallels coincide (the pole tests are then vacuous) … -/
 theorem ctor_domain_lcc_1_2 (a f l k : F64) (hl : l.isNaN = false) : lcc1OK a f l k = lcc2OK a f l l k := by
@@ -366,5 +441,169 @@ theorem nn_load_checks (bin : Bool) (np : Int) (b : Nat) : ∀ (i : Nat) (nodes 
       have := nn_load_checks bin np b (i + 1) rest h.2 j n (by simpa using hj)
       have e : i + 1 + j = i + (j + 1) := by omega
       rw [e] at this; exact this
+
+/-! ## 7. the contract covers the public API (obligations re-checked against the headers on every run)
+
+`Gen/ApiC13.lean` is the inventory of every public constructor, member function and static function of every class of
+`include/GeographicLib/*.hpp`, extracted from the clang AST by `tools/translate.d/C13.py`; `ErrCover.coverage` is the hand-written
+list saying how the contract reaches each of them.  Adding a public function, an overload or a parameter to the library without
+extending the contract breaks `api_covered`; removing one leaves a stale cover, which breaks it as well. -/
+
+/-- the generated inventory is well formed: every key ends in `/<parameter codes>><return code>` of its own signature (checked on the
+numeric codes), so the signature the obligations compute with is the one the key shows -/
+theorem api_wellformed : (Gen.ApiC13.api.all Fn.wf) = true := by decide +kernel
+
+/--
+**`api_covered`** (Gen): the one-pass check of the inventory against the coverage list succeeds.  By `api_covered_meaning` below:
+every public function with at least one floating-point / string / vector / stream input is the subject of a row of the dependence
+table, of a constructor-domain predicate, of a parser stream, of a file-reader stream or of a vector-size domain — or forwards the same
+inputs to an overload that is — or is excluded with a reason; no cover is stale; and the arities of the table rows fit the extracted
+signatures.
+-/
+theorem api_covered : checkCoverage Gen.ApiC13.api coverage = true := by decide +kernel
+
+/-- what the check means, for arbitrary lists (proved by induction over the pairing, `Proofs/ErrCover.lean`) -/
+theorem checkCoverage_sound (api : List Fn) (cov : List Cover) (h : checkCoverage api cov = true) :
+    (∀ f ∈ api, f.hasIn = true → ∃ c ∈ cov, (c.api == f.key) = true) ∧
+    (∀ c ∈ cov, ∃ f ∈ api, (c.api == f.key) = true) ∧
+    (∀ c ∈ cov, ∀ e off, c.how = .table e off → ∃ f ∈ api, (c.api == f.key) = true ∧
+      ∃ ent, findKey e = some ent ∧ off + f.nReal ≤ ent.nin ∧ f.nOut ≤ ent.nout) :=
+  Proofs.ErrCover.checkCoverage_sound api cov h
+
+/-- … instantiated at the current inventory -/
+theorem api_covered_meaning :
+    (∀ f ∈ Gen.ApiC13.api, f.hasIn = true → ∃ c ∈ coverage, (c.api == f.key) = true) ∧
+    (∀ c ∈ coverage, ∃ f ∈ Gen.ApiC13.api, (c.api == f.key) = true) :=
+  ⟨(checkCoverage_sound _ _ api_covered).1, (checkCoverage_sound _ _ api_covered).2.1⟩
+
+/-- **`cover_arities`** (Gen cross-check between the hand-written table and the extracted signatures): every `.table e off` cover names an
+existing row whose `nin` inputs include all `nReal` real arguments of the function starting at `off`, and whose `nout` outputs are at
+least the function's reference outputs plus return value -/
+theorem cover_arities : ∀ c ∈ coverage, ∀ e off, c.how = .table e off → ∃ f ∈ Gen.ApiC13.api, (c.api == f.key) = true ∧
+    ∃ ent, findKey e = some ent ∧ off + f.nReal ≤ ent.nin ∧ f.nOut ≤ ent.nout :=
+  (checkCoverage_sound _ _ api_covered).2.2
+
+/-- every exclusion, forwarding and indirect cover carries its reason -/
+theorem coverage_reasons_given : reasonsGiven = true := by decide +kernel
+
+/--
+**`ctor_all_have_domain`** (Gen): every public constructor of the inventory either has no parameter, or has a domain predicate that is
+executed against the implementation (`ctorOK` / `ctorBounds` class, vector-size form, accept / reject of a file reader or parser), or
+takes only an already validated library object / a message string.
+-/
+theorem ctor_all_have_domain : checkCtors Gen.ApiC13.api coverage = true := by decide +kernel
+
+/-- the class names of `ctorTable` are exactly those a dispatcher answers for, with that many parameters -/
+theorem ctor_table_dispatches : (ctorTable.all fun c => ctorKnown c.1.s c.2) = true := by decide +kernel
+
+/-- the constructors listed as accepting everything do so in the model, whatever the arguments ("the geodesic line being the documented
+exception") -/
+theorem total_ctors_total (c : Key × Nat) (hc : c ∈ totalCtors) (p : List F64) (hp : p.length = c.2) : ctorOK c.1.s p = some true := by
+  unfold ctorOK
+  have : (totalCtors.any fun d => d.1.s == c.1.s && d.2 == p.length) = true :=
+    List.any_eq_true.mpr ⟨c, hc, by simp [hp]⟩
+  simp [this]
+
+/-- `GeoCoords`: a NaN coordinate is not a reason to reject (it gives the INVALID zone / NaN position), an out-of-range latitude is -/
+theorem ctor_domain_geocoords :
+    (∀ lon, geoCoordsLatLonOK .nan lon = true) ∧ (∀ z np y, geoCoordsUTMOK z np .nan y = true) ∧ (∀ z np x, geoCoordsUTMOK z np x .nan = true) ∧
+    geoCoordsLatLonOK (F64.ofInt 91) 0 = false ∧ geoCoordsLatLonOK (F64.ofInt (-90)) 0 = true ∧
+    geoCoordsUTMOK 32 true (F64.ofInt 500000) (F64.ofInt 4400000) = true ∧ geoCoordsUTMOK 61 true (F64.ofInt 500000) (F64.ofInt 4400000) = false := by
+  refine ⟨fun _ => rfl, fun z np y => ?_, fun z np x => ?_, by decide +kernel, by decide +kernel, by decide +kernel, by decide +kernel⟩
+  · simp [geoCoordsUTMOK, UTMUPS.reverseAccepts, F64.isNaN]
+  · cases x <;> simp [geoCoordsUTMOK, UTMUPS.reverseAccepts, F64.isNaN]
+
+/-- the two-sided bounds of the solver-defined domains never contradict each other on the parameters the harness uses, and they are not
+vacuous: WGS84-like parameters must be accepted, a NaN anywhere must be rejected -/
+theorem ctor_bounds_sane :
+    let a := F64.ofInt 6378137; let gm := F64.ofInt 398600441800000; let om := F64.ofDecimal 7292115 11; let j2 := F64.ofDecimal 108263 8
+    let f := F64.ofDecimal 335 5
+    ctorBounds "NormalGravityJ2" [a, gm, om, j2] = some (false, true) ∧ ctorBounds "NormalGravityJ2" [a, gm, om, .nan] = some (true, false) ∧
+    ctorBounds "NormalGravityJ2" [.nan, gm, om, j2] = some (true, false) ∧ ctorBounds "NormalGravityJ2" [a, gm, om, 1] = some (true, false) ∧
+    ctorBounds "Intersect" [a, f] = some (false, true) ∧ ctorBounds "Intersect" [a, .nan] = some (true, false) ∧
+    ctorBounds "Intersect" [a, F64.ofDecimal 9 1] = some (false, false) ∧
+    ctorBounds "Intersect.All" [.inf false] = some (true, false) ∧ ctorBounds "Intersect.All" [.nan] = some (false, true) ∧
+    ctorBounds "Intersect.All" [F64.ofInt 30000000] = some (false, true) ∧ ctorBounds "Intersect.All" [F64.ofInt 900000000000] = some (false, false) ∧
+    ctorBounds "Intersect.All" [.inf true] = some (false, true) := by decide +kernel
+
+/-! ## 8. vector-size domain of the spherical-harmonic constructors (seeded change C13E) -/
+
+/-- for a legal triple `46339 ≥ N ≥ nmx ≥ mmx ≥ 0` the general constructor accepts exactly the vectors that reach the documented needs:
+`C` must hold index(nmx, mmx) + 1 elements, `S` index(nmx, mmx) − N of them (the m = 0 column of `S` is not stored) -/
+theorem sh_sizes_exact (s : ShSet) (h : s.N ≥ s.nmx ∧ s.nmx ≥ s.mmx ∧ s.mmx ≥ 0) (hN : s.N ≤ shMaxDegree) (hs : s.ssize ≥ 0) :
+    s.generalOK = true ↔ s.csize ≥ s.needC ∧ s.ssize ≥ s.needS := by
+  have hn : ¬ s.nmx < 0 := by omega
+  unfold ShSet.generalOK ShSet.sizesOK ShSet.needC ShSet.needS
+  generalize shIndex s.N s.nmx s.mmx = k
+  simp only [hn, if_false, Bool.and_eq_true, Bool.or_eq_true, decide_eq_true_eq]
+  constructor
+  · rintro ⟨_, h1, h2⟩; omega
+  · rintro ⟨h1, h2⟩; exact ⟨⟨Or.inl h, hN⟩, by omega, by omega⟩
+
+/-- **one element short is rejected** — in `C`, and in `S` whenever `S` is needed at all (what the seeded change C13E broke: `<` turned
+into `<=` in the test on `S`); the exact sizes are accepted -/
+theorem sh_one_short_rejected (N nmx mmx : Int) (h : N ≥ nmx ∧ nmx ≥ mmx ∧ mmx ≥ 0) (hN : N ≤ shMaxDegree) :
+    let s : ShSet := ⟨N, nmx, mmx, 0, 0⟩
+    let e : ShSet := { s with csize := s.needC, ssize := s.needS }
+    e.generalOK = true ∧ ({ e with csize := e.csize - 1 } : ShSet).generalOK = false ∧
+      (s.needS > 0 → ({ e with ssize := e.ssize - 1 } : ShSet).generalOK = false) := by
+  have hn : ¬ nmx < 0 := by omega
+  simp only [ShSet.generalOK, ShSet.sizesOK, ShSet.needC, ShSet.needS, hn, if_false]
+  generalize shIndex N nmx mmx = k
+  refine ⟨?_, ?_, fun hpos => ?_⟩
+  · simp only [Bool.and_eq_true, Bool.or_eq_true, decide_eq_true_eq]; exact ⟨⟨Or.inl h, hN⟩, by omega, by omega⟩
+  · simp only [Bool.and_eq_false_iff, decide_eq_false_iff_not]; right; left; omega
+  · simp only [Bool.and_eq_false_iff, decide_eq_false_iff_not]; right; right; omega
+
+/-- **the degree is bounded and `N ≥ −1` is enforced** (finding F79, repaired by 3a5948e): whatever the vectors, both constructor forms
+refuse `N > 46339` and `N < −1` -/
+theorem sh_degree_domain (s : ShSet) (h : s.N > shMaxDegree ∨ s.N < -1) : s.generalOK = false ∧ s.fullOK = false := by
+  unfold ShSet.generalOK ShSet.fullOK shMaxDegree at *
+  constructor
+  · simp only [Bool.and_eq_false_iff, Bool.or_eq_false_iff, decide_eq_false_iff_not]
+    rcases h with h | h
+    · left; right; omega
+    · left; left; constructor <;> omega
+  · simp only [Bool.and_eq_false_iff, decide_eq_false_iff_not]
+    rcases h with h | h
+    · left; right; omega
+    · left; left; omega
+
+/-- … and for every degree that is admitted the index arithmetic of the code stays inside a 32-bit `int`:
+`0 ≤ index(n, m) < 2³¹` for `0 ≤ m ≤ n ≤ N ≤ 46339` (so the size tests of an accepted constructor were computed without overflow) -/
+theorem sh_index_fits_int (N n m : Int) (h : N ≥ n ∧ n ≥ m ∧ m ≥ 0) (hN : N ≤ shMaxDegree) :
+    0 ≤ shIndex N n m ∧ shIndex N n m < 2 ^ 31 := by
+  unfold shIndex shMaxDegree at *
+  obtain ⟨h1, h2, h3⟩ := h
+  have hmm : 0 ≤ m * (m - 1) := by
+    by_cases hm : m = 0
+    · subst hm; simp
+    · exact Int.mul_nonneg h3 (by omega)
+  have hd0 : 0 ≤ Int.tdiv (m * (m - 1)) 2 := Int.tdiv_nonneg hmm (by decide)
+  have hd1 : Int.tdiv (m * (m - 1)) 2 ≤ m * (m - 1) := by
+    rw [Int.tdiv_eq_ediv_of_nonneg hmm]; omega
+  have hmN : m * N ≤ 46339 * 46339 := by
+    have : m * N ≤ 46339 * N := Int.mul_le_mul_of_nonneg_right (by omega) (by omega)
+    have : 46339 * N ≤ 46339 * 46339 := Int.mul_le_mul_of_nonneg_left hN (by decide)
+    omega
+  have hmm2 : m * (m - 1) ≤ m * N := Int.mul_le_mul_of_nonneg_left (by omega) h3
+  constructor
+  · omega
+  · omega
+
+/-- the needs are the `Csize` / `Ssize` of the header for the full layout up to degree 16 (table certificate):
+`Csize(N, M) = (M + 1)(2N − M + 2)/2`, `Ssize(N, M) = Csize(N, M) − (N + 1)` -/
+theorem sh_needs_are_header_sizes :
+    ((List.range 17).all fun N => (List.range (N + 1)).all fun M =>
+      let s : ShSet := ⟨N, N, M, 0, 0⟩
+      decide (2 * s.needC = ((M : Int) + 1) * (2 * N - M + 2)) && decide (s.needS = s.needC - (N + 1))) = true := by decide +kernel
+
+/-- the secondary coefficient sets of SphericalHarmonic1 / SphericalHarmonic2 may not exceed the primary one, and every set passes its own
+test; e.g. `N1 = 3 > N = 2` is rejected by the full form, equal degrees are accepted -/
+example : shCtorOK "sh1_3" [⟨2, 2, 2, 6, 3⟩, ⟨3, 3, 3, 10, 6⟩] = some false ∧ shCtorOK "sh1_3" [⟨2, 2, 2, 6, 3⟩, ⟨2, 2, 2, 6, 3⟩] = some true ∧
+    shCtorOK "sh5" [⟨2, 2, 1, 5, 1⟩] = some false ∧ shCtorOK "sh5" [⟨2, 2, 1, 5, 2⟩] = some true ∧ shCtorOK "coeff5" [⟨3, 2, -1, 64, 64⟩] = some false ∧
+    shCtorOK "sh3" [⟨65536, 65536, 65536, 36, 28⟩] = some false ∧ shCtorOK "coeff5" [⟨-2, -1, -1, 64, 64⟩] = some false ∧
+    shCtorOK "coeff5" [⟨-1, -1, -1, 0, 0⟩] = some true := by
+  decide +kernel
 
 end GeoVerif.Props.C13
